@@ -1,0 +1,75 @@
+//! `std::thread` look-alikes on top of the verification runtime.
+use std::sync::{Arc, Mutex};
+use std::time::Duration;
+
+use super::{rt, Op, TaskId};
+
+pub struct JoinHandle<T> {
+    task: TaskId,
+    result: Arc<Mutex<Option<std::thread::Result<T>>>>,
+}
+
+impl<T> JoinHandle<T> {
+    pub fn join(self) -> std::thread::Result<T> {
+        rt().op(Op::Join(self.task));
+        rt().join(self.task);
+        self.result
+            .lock()
+            .unwrap()
+            .take()
+            .expect("joined task has no result")
+    }
+    pub fn task_id(&self) -> TaskId {
+        self.task
+    }
+}
+
+#[derive(Default)]
+pub struct Builder {
+    name: Option<String>,
+}
+
+impl Builder {
+    pub fn new() -> Self {
+        Self::default()
+    }
+    pub fn name(mut self, name: String) -> Self {
+        self.name = Some(name);
+        self
+    }
+    pub fn spawn<F, T>(self, f: F) -> std::io::Result<JoinHandle<T>>
+    where
+        F: FnOnce() -> T + Send + 'static,
+        T: Send + 'static,
+    {
+        let result = Arc::new(Mutex::new(None));
+        let r2 = result.clone();
+        let body = Box::new(move || {
+            // like std: the panic is caught at the thread boundary and handed to `join`
+            let r = std::panic::catch_unwind(std::panic::AssertUnwindSafe(f));
+            *r2.lock().unwrap() = Some(r);
+        });
+        let task = rt().spawn(self.name.unwrap_or_default(), body);
+        Ok(JoinHandle { task, result })
+    }
+}
+
+pub fn spawn<F, T>(f: F) -> JoinHandle<T>
+where
+    F: FnOnce() -> T + Send + 'static,
+    T: Send + 'static,
+{
+    Builder::new().spawn(f).unwrap()
+}
+
+pub fn sleep(d: Duration) {
+    rt().op(Op::Sleep);
+    let deadline = rt().now() + d;
+    loop {
+        let now = rt().now();
+        if now >= deadline {
+            return;
+        }
+        rt().block(Some(deadline - now));
+    }
+}
